@@ -1,74 +1,56 @@
 (* Properties/C24.v — the object server exposes exactly the registered interfaces.
    Only statements, each closed by [exact] of a lemma of C24/Proofs.v, and their assumptions.
    model_state / model_results: the run of the tree model (C24/Model.v: at_, remove on Node trees,
-   as repaired by fix f5fe3276: the root is never destroyed, a node with children is kept);
-   spec_state / spec_results: the run of the flat map (C24/Spec.v);  Known_C24 h: some step of h,
-   read on the flat map, is a removal that leaves none of the user interfaces at a non-root path
-   where an ObjectManager is registered while nothing is registered strictly below it
-   (C24/Spec.v, flag24 / first_flag) — the one class left. *)
+   as the code is after fixes f5fe3276 — the root is never destroyed, a node with children is kept —
+   and 71f8bd70 — Node::is_empty counts an ObjectManager, so a manager keeps its node alive);
+   spec_state / spec_results: the run of the flat map (C24/Spec.v).  No history is excluded. *)
 From ZV Require Import Base.Bytes Base.Res C24.Ops C24.Model C24.Spec C24.Proofs.
 
-(* For every history outside the known classes, after every prefix of it: each (path, interface)
-   pair is looked up (ObjectServer::interface), called (method dispatch) and seen in introspection
-   (at the path itself, and nested in the root's XML) exactly as the flat map says — so a duplicate
-   registration changed nothing, a removal changed only its own pair — the results of all operations
-   are those of the flat map (duplicate refused, absent removal fails), and nothing panicked. *)
-Theorem C24_refines_partial : forall h : list op, ~ Known_C24 h ->
-  forall pre post, h = pre ++ post ->
-    (forall p k, ok_opt (lookup (model_state pre) p (ik k)) = sget (spec_state pre) p k) /\
-    (forall p k, ok_opt (call (model_state pre) p (ik k)) = sget (spec_state pre) p k) /\
-    (forall p k, seen_at (model_state pre) p (ik k) = is_some (sget (spec_state pre) p k)) /\
-    (forall p k, seen_nested (model_state pre) p (ik k) = is_some (sget (spec_state pre) p k)) /\
-    model_results pre = spec_results pre /\
-    ~ In RPanic (model_results pre).
-Proof. exact refines_partial. Qed.
-Print Assumptions C24_refines_partial.
+(* For EVERY history: each (path, interface) pair is looked up (ObjectServer::interface), called
+   (method dispatch) and seen in introspection (at the path itself, and nested in the root's XML)
+   exactly as the flat map says — so a duplicate registration changed nothing and a removal changed
+   only its own pair — the results of all operations are those of the flat map (duplicate refused,
+   absent removal fails), and nothing panicked.  (Every prefix of a history is a history, so this is
+   "after every step".) *)
+Theorem C24_refines : forall h : list op,
+    (forall p k, ok_opt (lookup (model_state h) p (ik k)) = sget (spec_state h) p k) /\
+    (forall p k, ok_opt (call (model_state h) p (ik k)) = sget (spec_state h) p k) /\
+    (forall p k, seen_at (model_state h) p (ik k) = is_some (sget (spec_state h) p k)) /\
+    (forall p k, seen_nested (model_state h) p (ik k) = is_some (sget (spec_state h) p k)) /\
+    model_results h = spec_results h /\
+    ~ In RPanic (model_results h).
+Proof. exact refines. Qed.
+Print Assumptions C24_refines.
 
-(* non-vacuity: a 12-step history with nesting, a refused duplicate, a failing removal, removals at
-   a leaf and at the root, and a manager, lies outside the known classes *)
-Theorem C24_partial_nonvacuous : ~ Known_C24 h_clean /\
-  spec_results h_clean = [RBool true; RBool true; RBool false; RErr; RDone; RBool true; RBool true;
-                          RDone; RBool true; RDone; RBool true; RDone].
+(* beyond the property text (the flag of `remove` is left open by the flat map): after any history, a
+   removal that reports the object destroyed leaves nothing at all registered at the path *)
+Theorem C24_remove_flag : forall (h : list op) p k,
+    snd (fst (remove (model_state h) p (ik k))) = Ok true -> bare (sdel (spec_state h) p k) p = true.
+Proof. exact remove_flag. Qed.
+Print Assumptions C24_remove_flag.
+
+(* a concrete instance: 12 steps with nesting, a refused duplicate, a failing removal, removals at a
+   leaf and at the root, and a manager *)
+Theorem C24_example :
+  model_results h_clean = [RBool true; RBool true; RBool false; RErr; RDone; RBool true; RBool true;
+                           RDone; RBool true; RDone; RBool true; RDone] /\
+  sget (spec_state h_clean) [B "a"] K1 = Some 1%N /\ sget (spec_state h_clean) [] K1 = Some 7%N /\
+  sget (spec_state h_clean) [B "a"; B "b"] K1 = None.
 Proof. exact h_clean_ok. Qed.
-Print Assumptions C24_partial_nonvacuous.
+Print Assumptions C24_example.
 
-(* beyond the property text (the flag of `remove` is left open by the flat map): outside the known
-   class a removal that reports the object destroyed left nothing at all registered at the path *)
-Theorem C24_remove_flag_partial : forall h : list op, ~ Known_C24 h ->
-  forall pre p k post, h = pre ++ Rm p k :: post ->
-    snd (fst (remove (model_state pre) p (ik k))) = Ok true -> bare (sdel (spec_state pre) p k) p = true.
-Proof. exact remove_flag_partial. Qed.
-Print Assumptions C24_remove_flag_partial.
-
-(* repaired by f5fe3276 (formerly C24_root_remove_refuted, C24_subtree_refuted): at("/",I1);
-   remove::<I1>("/") and at(/a,I1); at(/a/b,I2); remove::<I1>(/a) are outside the known class — so
-   C24_refines_partial covers them — the first no longer panics, the second keeps I2 at /a/b *)
+(* the repaired behaviour on the three former witnesses (formerly C24_root_remove_refuted,
+   C24_subtree_refuted, C24_manager_refuted):
+   at("/",I1); remove::<I1>("/") no longer panics; at(/a,I1); at(/a/b,I2); remove::<I1>(/a) keeps
+   I2 at /a/b; at(/a,I1); at(/a,ObjectManager); remove::<I1>(/a) keeps the manager, and removing the
+   manager afterwards destroys the then empty node *)
 Theorem C24_repaired_histories :
-  ~ Known_C24 [At [] K1 1; Rm [] K1] /\
-  ~ Known_C24 [At [B "a"] K1 1; At [B "a"; B "b"] K2 2; Rm [B "a"] K1] /\
   model_results [At [] K1 1; Rm [] K1] = [RBool true; RDone] /\
-  ok_opt (lookup (model_state [At [B "a"] K1 1; At [B "a"; B "b"] K2 2; Rm [B "a"] K1]) [B "a"; B "b"] (ik K2)) = Some 2%N.
+  ok_opt (lookup (model_state [At [B "a"] K1 1; At [B "a"; B "b"] K2 2; Rm [B "a"] K1]) [B "a"; B "b"] (ik K2)) = Some 2%N /\
+  (let h := [At [B "a"] K1 1; At [B "a"] KM 2; Rm [B "a"] K1] in
+   ok_opt (lookup (model_state h) [B "a"] (ik KM)) = Some 2%N /\
+   ok_opt (call (model_state h) [B "a"] (ik KM)) = Some 2%N /\
+   seen_at (model_state h) [B "a"] (ik KM) = true /\
+   snd (fst (remove (model_state h) [B "a"] (ik KM))) = Ok true).
 Proof. exact repaired_ok. Qed.
 Print Assumptions C24_repaired_histories.
-
-(* the remaining known finding: at(/a, I1); at(/a, ObjectManager); remove::<I1>(/a)  takes the manager away *)
-Theorem C24_manager_refuted :
-  let h := [At [B "a"] K1 1; At [B "a"] KM 2; Rm [B "a"] K1] in
-  sget (spec_state h) [B "a"] KM = Some 2%N /\
-  ok_opt (lookup (model_state h) [B "a"] (ik KM)) = None /\
-  ok_opt (call (model_state h) [B "a"] (ik KM)) = None /\
-  seen_at (model_state h) [B "a"] (ik KM) = false /\
-  first_flag [] h = Some ManagerDropped.
-Proof. exact manager_refuted. Qed.
-Print Assumptions C24_manager_refuted.
-
-(* hence the statement at full strength (the conclusion above for ALL histories) is false on this tree *)
-Theorem C24_full_statement_refuted : ~ (forall h pre post : list op, h = pre ++ post ->
-    (forall p k, ok_opt (lookup (model_state pre) p (ik k)) = sget (spec_state pre) p k) /\
-    (forall p k, ok_opt (call (model_state pre) p (ik k)) = sget (spec_state pre) p k) /\
-    (forall p k, seen_at (model_state pre) p (ik k) = is_some (sget (spec_state pre) p k)) /\
-    (forall p k, seen_nested (model_state pre) p (ik k) = is_some (sget (spec_state pre) p k)) /\
-    model_results pre = spec_results pre /\
-    ~ In RPanic (model_results pre)).
-Proof. exact full_statement_false. Qed.
-Print Assumptions C24_full_statement_refuted.
